@@ -406,7 +406,7 @@ func (g *Gen) Enabled() []string {
 		case OpDeadRead:
 			ok = len(m.Ents) > m.NAlive
 		case OpCacheIll:
-			ok = len(used) > 0
+			ok = len(used) > 0 || m.NStale > 0
 		}
 		if ok {
 			for i := 0; i < w; i++ {
@@ -649,6 +649,9 @@ func (g *Gen) drawKind(t *rapid.T, k string) (Op, bool) {
 			C: rapid.IntRange(0, m.U.N()-1).Draw(t, "c"), V: rapid.IntRange(0, 4).Draw(t, "accessor")}, true
 	case OpCacheIll:
 		used, _ := g.regSlots()
+		if m.NStale > 0 && (len(used) == 0 || rapid.Bool().Draw(t, "stale")) {
+			return Op{K: k, Ill: "cache", Slot: rapid.IntRange(0, m.NStale-1).Draw(t, "staleidx"), V: 2}, true
+		}
 		if len(used) == 0 {
 			return Op{}, false
 		}
